@@ -36,7 +36,11 @@ structure Cfg where
 
   * (repaired, fixes/C01-same_relation_wildcard_position.diff) wildcard columns are named
     `_ph_a<atom>_<rel>_<i>` (ir_builder:298): unique per atom, so a wildcard is an anonymous variable.
-  * **filter push-down into the right side of a join** (optimizer:337-404, always on, applied to
+  * (repaired, fixes/C05-pushdown_right_past_join_key.diff of the `ir` branch: the pushed filter is
+    re-indexed through the right side's key positions, so push-down no longer changes the meaning
+    of a clause and is not part of the model any more; `pushPlan` below describes the *unrepaired*
+    optimizer and is kept only for the class predicate `Drv.C01.pushdownShift`, still referenced by
+    Drv/C06.) Formerly: **filter push-down into the right side of a join** (optimizer:337-404,
     non-recursive heads only because recursive heads run the unoptimized tree, lib.rs:1667):
     when every column of the (fused) comparison filters lies in the part of the join output
     contributed by the right scan, the filter is moved onto the right scan with its column
@@ -151,18 +155,14 @@ def withFilters (atoms : List Atom) (plan : Option (Nat × List (String × Nat))
 
 /-- the bag of body valuations as the engine computes it. `optimized`: the tree went through
     `Optimizer::optimize` (non-recursive heads). -/
-def bodyEnvsM (optimized : Bool) (lk : String → List Tuple) (r : Rule) : Option (List Env) :=
+def bodyEnvsM (_optimized : Bool) (lk : String → List Tuple) (r : Rule) : Option (List Env) :=
   match buildCmps r.posVars r.cmps with
   | none => none
   | some (cols, fs) =>
     if cols.any (fun xe => exprHasDivMod xe.2) then none else
-    let plan := if optimized && cols.isEmpty then pushPlan r fs else none
-    let envs := evalPosF lk (withFilters r.posAtoms plan fs) [[]]
-    match optMapM (applyCols cols) envs with
+    match optMapM (applyCols cols) (evalPos lk r.posAtoms [[]]) with
     | none => none
-    | some envs =>
-      let envs := if plan.isSome then envs else envs.filter (fun env => fs.all (Cmp.holds env))
-      some (evalNegs lk r.negAtoms envs)
+    | some envs => some (evalNegs lk r.negAtoms (envs.filter (fun env => fs.all (Cmp.holds env))))
 
 def evalRuleM (optimized : Bool) (lk : String → List Tuple) (r : Rule) : Option (List Tuple) :=
   match bodyEnvsM optimized lk r with
